@@ -576,6 +576,7 @@ var ccaCols = [][]float64{
 	{0, 0, 1, 1, 0, 3},
 	{3, 1, -2, 0, 1, 1},
 	{1, 4, 1, 0, 2, -1},
+	{2, 2, 2, 2, 2, 2}, // constant: only used by the degenerate destination cases of group dst
 }
 
 type rmat [][]*big.Rat
